@@ -94,6 +94,7 @@ def pred_segment(case, ctx):
 @st.composite
 def multipitch_case(draw):
     c = draw(gp.multipitch_pair(same_timebase=True))
+    c["ulp"] = draw(st.booleans())      # the second annotation's grid differs from the first by floating-point rounding only
     return c
 
 
@@ -127,8 +128,14 @@ def pred_multipitch(case, ctx):
         return False
     rf, ef = R.hz_frames(case["ref_freqs"]), R.hz_frames(case["est_freqs"])
     w = case["window"]
-    m1 = ctx.call(multipitch.metrics, t, rf, t, ef, window=w)
-    m2 = ctx.call(multipitch.metrics, t, ef, t, rf, window=w)
+    t2 = t.copy()
+    if case.get("ulp"):
+        t2[0] = np.nextafter(t2[0], np.inf)
+        if len(t2) > 1:
+            t2[-1] = np.nextafter(t2[-1], -np.inf)
+        ctx.event("grids_equal_up_to_rounding")
+    m1 = ctx.call(multipitch.metrics, t, rf, t2, ef, window=w)
+    m2 = ctx.call(multipitch.metrics, t2, ef, t, rf, window=w)
     _eq("multipitch P(a,b) = R(b,a)", m1[0], m2[1], case)
     _eq("multipitch R(a,b) = P(b,a)", m1[1], m2[0], case)
     _eq("multipitch accuracy", m1[2], m2[2], case)
